@@ -7,6 +7,7 @@ declarations inserted after the set-* prefix; every call under a
 deterministic work budget.  See DESIGN.md section 3, C11.
 """
 import itertools
+import os
 
 from .. import common, sexp
 
@@ -314,6 +315,20 @@ def struct_repls(key):
 def run_unit(unit):
     kind = unit[0]
     part = common.part_result()
+    if kind == 'inline':
+        _, label, i = unit
+        maxn = 5 if os.environ.get('VERIF_TIER') == 'thorough' else 4
+        for body in inl_bodies(maxn):
+            run_inline(part, body, (INL_ARGS[i], ), label)
+            for a2 in INL_ARGS:
+                run_inline(part, body, (INL_ARGS[i], a2), label)
+        if i == 3 and label == 'inline':
+            part['samples'].append({
+                'script': '(define-fun f ((a S) (b S)) S (a b)) '
+                          '(assert (p (f (+ a 1) b)))',
+                'mutator': 'InlineDefinedFuns',
+                'expected': '(assert (p ((+ a 1) b)))'})
+        return part
     if kind == 'id':
         _, total, idx, nshards, maxk, nfull = unit
         for n, forest in enumerate(forests_exact(total)):
@@ -481,6 +496,95 @@ def run_nested_pair(part, forest, p, q, s2):
                 'pair': [list(p), list(q), list(s2)]})
 
 
+INL_ARGS = ['a', 'b', 'c', ['+', 'a', '1'], ['+', 'b', '1'], ['g', 'b', 'a']]
+INL_LEAVES = ['a', 'b', 'c']
+
+
+def msubst(tree, env):
+    """Reference: simultaneous substitution of leaves, replacements are
+    inserted as given."""
+    if isinstance(tree, str):
+        return env.get(tree, tree)
+    return [msubst(t, env) for t in tree]
+
+
+def inl_bodies(maxn):
+    for n in range(1, maxn + 1):
+        for shp in sexp.shapes(n):
+            k = sexp.count_leaves(shp)
+            if k == 0:
+                continue
+            for combo in itertools.product(INL_LEAVES, repeat=k):
+                yield sexp.fill(shp, iter(combo))
+
+
+def run_inline(part, body, args, label):
+    """Function inlining / let substitution through the real mutators:
+    formal -> actual is a simultaneous substitution, actual arguments are
+    inserted as given (also when they mention a formal parameter)."""
+    from ddsmt import smtlib, mutators_smtlib
+    from ddsmt.mutator_utils import apply_simp
+    formals = ['a', 'b'][:len(args)]
+    env = dict(zip(formals, args))
+    if label == 'inline':
+        forest = [['define-fun', 'f', [[x, 'S'] for x in formals], 'S', body],
+                  ['assert', ['p', ['f'] + list(args)]]]
+        path = (1, 1, 1)
+        mut = mutators_smtlib.InlineDefinedFuns()
+        want = [[forest[0], ['assert', ['p', msubst(body, env)]]]]
+    else:
+        forest = [['assert', ['p', ['let', [[x, t] for x, t in
+                                            zip(formals, args)], body]]]]
+        path = (0, 1, 1)
+        mut = mutators_smtlib.LetSubstitution()
+        want = []
+        for x, t in zip(formals, args):
+            want.append([['assert', ['p', ['let', forest[0][1][1][1],
+                                           msubst(body, {x: t})]]]])
+    base = build(forest)
+    smtlib.collect_information(base)
+    node = node_at(base, path)
+    common.pcount(part, 'evaluations')
+    common.pcount(part, 'distinct_nontrivial')
+    try:
+        if not mut.filter(node):
+            props = []
+        else:
+            props = list(mut.mutations(node))
+        results = [sexp.norm(sexp.node_to_list(apply_simp(base, sp)))
+                   for sp in props]
+    except Exception as e:  # noqa
+        common.pviolation(part, f'{label}|exception|{type(e).__name__}', {
+            'brief': f'{label}: {type(e).__name__} {e} on '
+                     f'{sexp.serialize_all(forest)}',
+            'label': label, 'body': body, 'args': list(args)})
+        return
+    common.pcount(part, f'{label}_proposals', len(results))
+    if sexp.norm(sexp.node_to_list(base)) != sexp.norm(forest):
+        common.pviolation(part, f'{label}|base-modified', {
+            'brief': f'{label}: the input was modified: '
+                     f'{sexp.serialize_all(forest)}',
+            'label': label, 'body': body, 'args': list(args)})
+    want_n = [sexp.norm(w) for w in want]
+    for r in results:
+        if r not in want_n:
+            common.pviolation(
+                part, f'{label}|not-simultaneous|'
+                f'{len(args)}|{sexp.serialize(body)[:20]}', {
+                    'brief': f'{label}: {sexp.serialize_all(forest)} is '
+                             f'rewritten to {sexp.serialize_all(r)}, '
+                             'expected ' + ' or '.join(
+                                 sexp.serialize_all(w) for w in want),
+                    'label': label, 'body': body, 'args': list(args)})
+    if label == 'inline' and not results and \
+            sexp.norm(msubst(body, env)) != sexp.norm(['f'] + list(args)):
+        common.pviolation(part, f'{label}|no-proposal', {
+            'brief': f'{label}: no proposal for '
+                     f'{sexp.serialize_all(forest)}',
+            'label': label, 'body': body, 'args': list(args)})
+
+
+
 def forests_exact(total):
     for fs in sexp.forests_shapes(total):
         if len(fs) > 2:
@@ -493,6 +597,8 @@ def forests_exact(total):
 
 def plan(tier):
     nid = 7 if tier == 'thorough' else 6
+    inl = [('inline', label, i) for label in ('inline', 'let')
+           for i in range(len(INL_ARGS))]
     maxk = 3 if tier == 'thorough' else 2
     units = []
     for total in range(1, nid + 1):
@@ -511,7 +617,7 @@ def plan(tier):
             units.append(('nested-pairs', total, i, sh))
     for L in (1, 2, 3):
         units.append(('decls', L))
-    return units, nid, maxk
+    return units + inl, nid, maxk
 
 
 def main(tier):
@@ -529,7 +635,12 @@ def main(tier):
         'in {a,(a),(a b)} x {fresh leaf, term containing the key once / '
         'twice}; id+structural; two structural keys; pairs of pending '
         'id-keyed simplifications; declaration insertion over all command '
-        'sequences of length <= 3 from 7 commands x 3 fresh sets. '
+        'sequences of length <= 3 from 7 commands x 3 fresh sets; function '
+        'inlining and let substitution through the real mutators: every '
+        'body with <= 4 (thorough 5) nodes over {a,b,c} x 1 or 2 actual '
+        'arguments from {a,b,c,(+ a 1),(+ b 1),(g b a)} (arguments that '
+        'mention their own or the other formal parameter) against a '
+        'simultaneous nested-list substitution. '
         'distinct_nontrivial = cases in which at least one position is '
         'designated (all cases are distinct by construction)')
     rep.set('exhaustive', True)
@@ -545,7 +656,9 @@ def replay(rec):
     _init()
     r = rec['record']
     part = common.part_result()
-    if r['label'] == 'nested-pairs':
+    if r['label'] in ('inline', 'let'):
+        run_inline(part, r['body'], tuple(r['args']), r['label'])
+    elif r['label'] == 'nested-pairs':
         p, q, s2 = r['pair']
         run_nested_pair(part, r['forest'], tuple(p), tuple(q), tuple(s2))
     elif r['label'] == 'pairs':
